@@ -22,13 +22,13 @@ class OptionNode(BaseNode):
             return OptionNode(parser)
         
     def parse(self, env):
-        node = env.nodes[-1]
+        node = env.property_target()
         if not isinstance(node,(IntegerNode,FloatNode,StringNode)):
-            raise Exception(f"Node '{env.nodes[-1].keyword}' does not support options")
+            raise Exception(f"Node '{env.property_target().keyword}' does not support options")
         if self.dimension:
             for value in self.cast_value():
                 self.value_raw = value
-                env.nodes[-1].set_option(self.copy(), env)
+                env.property_target().set_option(self.copy(), env)
         else:
-            env.nodes[-1].set_option(self, env)
+            env.property_target().set_option(self, env)
         return None
